@@ -321,3 +321,71 @@ Definition files_from_last_checkpoint (fs : list file) : option (list file) :=
   end.
 
 End Checkpoint.
+
+(** ** cmd/atlas/internal/cmdapi: dirFormatBC + checkDir -> cmdmigrate.Dir / DirURL,
+    the path every PreRunE takes before Validate.  url.Parse itself is trusted:
+    the model starts from its result (parse error or scheme, host+path, the
+    [format] query parameter if present). *)
+Definition s_mem : bytes := [109;101;109]%N.                                   (* "mem" *)
+Definition s_file : bytes := [102;105;108;101]%N.                              (* "file" *)
+Definition s_atlas_scheme : bytes := [97;116;108;97;115]%N.                    (* "atlas" *)
+Definition s_golang_migrate : bytes := [103;111;108;97;110;103;45;109;105;103;114;97;116;101]%N.
+Definition s_goose : bytes := [103;111;111;115;101]%N.
+Definition s_flyway : bytes := [102;108;121;119;97;121]%N.
+Definition s_liquibase : bytes := [108;105;113;117;105;98;97;115;101]%N.
+Definition s_dbmate : bytes := [100;98;109;97;116;101]%N.
+
+(** DirURL: [switch f := u.Query().Get("format")] *)
+Definition parse_format (b : bytes) : option format :=
+  if bytes_eqb b [] || bytes_eqb b s_atlas_scheme then Some FAtlas
+  else if bytes_eqb b s_golang_migrate then Some FGolangMigrate
+  else if bytes_eqb b s_goose then Some FGoose
+  else if bytes_eqb b s_flyway then Some FFlyway
+  else if bytes_eqb b s_liquibase then Some FLiquibase
+  else if bytes_eqb b s_dbmate then Some FDBMate
+  else None.
+
+Inductive dopen :=
+| OMem                       (* migrate.OpenMemDir *)
+| OLocal (f : format)        (* the format's New*Dir on the local path *)
+| OCloud                     (* atlas:// -- outside the model *)
+| OErr.                      (* missing scheme / unsupported driver / unknown dir format *)
+
+Definition dir_url (scheme : bytes) (fmt : option bytes) : dopen :=
+  if bytes_eqb scheme s_mem then OMem
+  else if bytes_eqb scheme s_file then
+    match parse_format (match fmt with Some x => x | None => [] end) with
+    | Some f => OLocal f
+    | None => OErr
+    end
+  else if bytes_eqb scheme s_atlas_scheme then OCloud
+  else OErr.
+
+(** dirFormatBC on a URL that parsed: [if !u.Query().Has("format") && flag != ""] *)
+Definition dir_format_bc (flag : bytes) (fmt : option bytes) : option bytes :=
+  match fmt with
+  | Some _ => fmt
+  | None => match flag with [] => None | _ => Some flag end
+  end.
+
+Section CheckDir.
+Variable HS : bytes -> bytes.
+
+Inductive prerun :=
+| PErrParse                   (* url.Parse failed (dirFormatBC or cmdmigrate.Dir) *)
+| PErrOpen                    (* DirURL refused the scheme or the format *)
+| PErrNotExist                (* NewLocalDir: the path is not a directory *)
+| PCloud
+| PValidated (v : tvres).     (* migrate.Validate ran: its outcome *)
+
+(** [parse_ok]: url.Parse succeeded; [is_dir]: os.Stat(path).IsDir(); [t]: the directory's content *)
+Definition check_dir_url (parse_ok : bool) (scheme : bytes) (fmt : option bytes) (flag : bytes)
+                     (is_dir : bool) (t : tree) : prerun :=
+  if negb parse_ok then PErrParse
+  else match dir_url scheme (dir_format_bc flag fmt) with
+       | OErr => PErrOpen
+       | OCloud => PCloud
+       | OMem => PValidated (TV (validate HS [] None))
+       | OLocal f => if is_dir then PValidated (validate_tree HS f t) else PErrNotExist
+       end.
+End CheckDir.
